@@ -1034,6 +1034,32 @@ def m_cast_chain(g):
     return cur
 
 
+def m_concat_zero_other_axis(g):
+    """Concat of operands that are EMPTY along an axis other than the concat axis (float[2,0] ++ float[3,0] on axis 0 is
+    float[5,0]): nothing to copy, but every operand still contributes its length along the concat axis."""
+    rank = g.rng.choice([2, 2, 3])
+    ax = g.rng.randrange(rank)
+    zax = g.rng.choice([i for i in range(rank) if i != ax])
+    dt = g.rng.choice([F32, F32, I64])
+    base = [g.rng.choice([1, 2, 3]) for _ in range(rank)]
+    base[zax] = 0
+    ins = []
+    for k in range(g.rng.choice([2, 2, 3])):
+        shp = list(base)
+        shp[ax] = g.rng.choice([1, 2, 3, 0] if k else [2, 3])
+        if g.depth == 0 and len(g.inputs) < 5 and g.rng.random() < 0.4:
+            ins.append(g.new_input(dtype=dt, shape=shp))
+        else:
+            ins.append(g.const(np.zeros(shp, dtype=dt)))
+    g.hit("motif:concat_zero_other_axis")
+    out = g.add("Concat", ins, axis=ax if g.rng.random() < 0.5 else ax - rank, mag=0.0)
+    if g.depth == 0:
+        g.force_out.append(out)
+        if g.rng.random() < 0.5:
+            g.force_out.append(g.add("Shape", [out], mag=8))
+    return out
+
+
 def m_reshape_reshape(g):
     x = g.pick(lambda v: v.rank >= 1 and v.static() and int(np.prod(v.shape)) > 0)
     n = int(np.prod(x.shape))
@@ -1501,7 +1527,7 @@ def m_sibling_ifs(g):
 
 
 MOTIFS = [
-    (m_noop_arith, 5), (m_cast_cast, 3), (m_cast_chain, 3), (m_reshape_reshape, 3), (m_transpose_transpose, 3), (m_clip_relu, 4),
+    (m_noop_arith, 5), (m_cast_cast, 3), (m_cast_chain, 3), (m_concat_zero_other_axis, 2), (m_reshape_reshape, 3), (m_transpose_transpose, 3), (m_clip_relu, 4),
     (m_shape_chain, 5), (m_identity_out, 3), (m_const_fold_chain, 5), (m_init_input_chain, 2), (m_cse, 2),
     (m_unsq_unsq, 2), (m_flatten_reshape, 1), (m_random, 2), (m_sibling_ifs, 1),
 ]
